@@ -677,7 +677,7 @@ impl Check for C17 {
         "C17"
     }
     fn level(&self) -> &'static str {
-        "fault_injection_sim"
+        "exploration"
     }
     fn technique(&self) -> &'static str {
         "seeded simulation of the process side: real bash processes write seeded payloads (text, multi-byte, binary; sizes around the preview limit, the 8 KiB read size and the artifact cap) in seeded segment/pause patterns through the real foreground shell tool (seeded limits incl. 0) and through background tasks on the real router (seeded limits, cancellation moments, unstartable tasks); the libc seam injects a slow disk (every artifact-store write delayed by a seeded time); oracles: byte-for-byte comparison of stored output, previews, hashes, frame ranges and page sequences with the generated payload, and a lifecycle automaton over the task stream"
